@@ -88,7 +88,7 @@ Definition step_gen (os : option FastSet) (o : op) : option FastSet :=
 Definition step_model (l : list nat) (o : op) : list nat :=
   match o with Ins x => fs_insert l (N.to_nat x) | Rem x => fs_remove l (N.to_nat x) | Reset => [] end.
 
-Theorem g_history m ops : m <= 4294967295 -> Forall (op_ok m) ops ->
+Lemma g_history m ops : m <= 4294967295 -> Forall (op_ok m) ops ->
   exists s, fold_left step_gen ops (M_FastSet_new m) = Some s /\ inv s /\ FastSet_max s = m /\
             abs s = fold_left step_model ops [].
 Proof.
